@@ -188,7 +188,8 @@ enum class Op {
   ASSERT_REF, // assert(ref cst) id
   BASSIGN_REFCST, // v[0] = (ref cst on v[1] (,v[2]), k, n[0])
   SELECT_REF, // (v[0], rgn v[1]) = ite(v[2], (v[3]|null, rgn v[4]), (v[5]|null, rgn v[6])) ; "" = null
-  CALL        // outs = call k(args): v = outs ++ args, n[0] = number of outs
+  CALL,       // outs = call k(args): v = outs ++ args, n[0] = number of outs
+  INTRINSIC   // crab_intrinsic(k, v...) without outputs (value_partition_start / value_partition_end)
 };
 
 static const char *const op_names[] = {
@@ -197,7 +198,7 @@ static const char *const op_names[] = {
     "bassert",   "bselect",    "arr_init",  "arr_store",       "arr_store_range",
     "arr_load",  "arr_assign", "rgn_init",  "rgn_copy",        "make_ref", "remove_ref",
     "load_ref",  "store_ref",  "gep_ref",   "assume_ref",      "assert_ref",
-    "bassign_r", "select_ref", "call"};
+    "bassign_r", "select_ref", "call",     "intrinsic"};
 
 struct Stmt {
   Op op = Op::UNREACH;
